@@ -441,13 +441,15 @@ def rule_size_line(ctx):
         return
     radix = None
     semi = False
-    for _, t in rs.calls():
-        p = short(callee_path(t) or "")
-        if p.endswith("from_str_radix"):
-            radix = t["args"][1].get("int")
-    for c in prog.closures_of(rs):
-        txt = repr(c.raw)
-        if "'int': '%d'" % ord(";") in txt:
+    from .panics import reachable_from
+    for b_ in reachable_from(prog, [rs]):         # the size-line parsing may sit in a helper / closure of the handler
+        if b_.is_derived:
+            continue
+        for _, t in b_.calls():
+            p = short(callee_path(t) or "")
+            if p.endswith("from_str_radix"):
+                radix = t["args"][1].get("int")
+        if b_.kind == "Closure" and "'int': '%d'" % ord(";") in repr(b_.raw):
             semi = True
     ctx.check(radix == "16", R, "radix-16", "the chunk size is parsed as hexadecimal", loc=body_loc(rs), detail=radix)
     ctx.check(semi, R, "extension-cut", "the size is cut at the first ';' (chunk extension)", loc=body_loc(rs))
